@@ -141,6 +141,10 @@ pub struct Script {
     pub codec: Cd,
     pub rd: Vec<usize>,
     pub cut: usize,
+    /// JSON only: how the hand-made frames write structs: 0 = objects (as serde_json prints them),
+    /// 1 = every struct and struct variant as a positional ARRAY (serde's visit_seq; Duration as
+    /// [secs,nanos]), 2 = mixed (request and Duration as arrays, contexts as objects)
+    pub form: u8,
     pub toks: Vec<Tok>,
 }
 
@@ -209,7 +213,7 @@ impl Tok {
 
 pub fn parse(line: &str) -> Option<Script> {
     let (cfg, rest) = line.trim().split_once('|')?;
-    let mut s = Script { mode: Mode::Server, sub: Sub::None, codec: Cd::Json, rd: vec![], cut: 0, toks: vec![] };
+    let mut s = Script { mode: Mode::Server, sub: Sub::None, codec: Cd::Json, rd: vec![], cut: 0, form: 0, toks: vec![] };
     for kv in cfg.split(',') {
         let (k, v) = kv.split_once('=')?;
         match k {
@@ -218,6 +222,7 @@ pub fn parse(line: &str) -> Option<Script> {
             "codec" => s.codec = match v { "json" => Cd::Json, "bincode" => Cd::Bincode, _ => return None },
             "rd" => s.rd = v.split('.').filter_map(|x| x.parse().ok()).collect(),
             "cut" => s.cut = v.parse().ok()?,
+            "form" => s.form = match v { "obj" => 0, "arr" => 1, "mix" => 2, _ => return None },
             _ => return None,
         }
     }
@@ -229,12 +234,13 @@ pub fn parse(line: &str) -> Option<Script> {
 
 pub fn show(s: &Script) -> String {
     format!(
-        "mode={},sub={},codec={},rd={},cut={}|{}",
+        "mode={},sub={},codec={},rd={},cut={},form={}|{}",
         match s.mode { Mode::Server => "server", Mode::Client => "client", Mode::Stream => "stream" },
         match s.sub { Sub::None => "none", Sub::Fmt => "fmt", Sub::Otel => "otel" },
         match s.codec { Cd::Json => "json", Cd::Bincode => "bincode" },
         s.rd.iter().map(|x| x.to_string()).collect::<Vec<_>>().join("."),
         s.cut,
+        ["obj", "arr", "mix"][s.form.min(2) as usize],
         s.toks.iter().map(|t| t.show()).collect::<Vec<_>>().join(" ")
     )
 }
@@ -259,8 +265,30 @@ fn varint(out: &mut Vec<u8>, n: u64) {
 const TRACE_JSON: &str = r#"{"trace_id":[7,0,0,0,0,0,0,0,0,0,0,0,0,0,0,0],"span_id":3,"sampling_decision":"Sampled"}"#;
 
 /// A request frame payload with an arbitrary wire deadline, written without tarpc's serializer.
+const TRACE_ARR: &str = r#"[[7,0,0,0,0,0,0,0,0,0,0,0,0,0,0,0],3,"Sampled"]"#;
+
 pub fn request_payload(codec: &Cd, id: u64, dl: Option<(u64, u32)>, body: &str) -> Vec<u8> {
+    request_payload_form(codec, id, dl, body, 0)
+}
+
+pub fn request_payload_form(codec: &Cd, id: u64, dl: Option<(u64, u32)>, body: &str, form: u8) -> Vec<u8> {
     match codec {
+        Cd::Json if form == 1 => {
+            // positional at every level; an omitted deadline cannot be written positionally (it is the
+            // FIRST field of the context), so that context falls back to the object form
+            let ctx = match dl {
+                Some((s, n)) => format!("[[{s},{n}],{TRACE_ARR}]"),
+                None => format!(r#"{{"trace_context":{TRACE_ARR}}}"#),
+            };
+            format!(r#"{{"Request":[{ctx},{id},"{body}"]}}"#).into_bytes()
+        }
+        Cd::Json if form == 2 => {
+            let d = match dl {
+                Some((s, n)) => format!(r#""deadline":[{s},{n}],"#),
+                None => String::new(),
+            };
+            format!(r#"{{"Request":[{{{d}"trace_context":{TRACE_JSON}}},{id},"{body}"]}}"#).into_bytes()
+        }
         Cd::Json => {
             let d = match dl {
                 Some((s, n)) => format!(r#""deadline":{{"secs":{s},"nanos":{n}}},"#),
@@ -285,7 +313,12 @@ pub fn request_payload(codec: &Cd, id: u64, dl: Option<(u64, u32)>, body: &str) 
     }
 }
 pub fn cancel_payload(codec: &Cd, id: u64) -> Vec<u8> {
+    cancel_payload_form(codec, id, 0)
+}
+pub fn cancel_payload_form(codec: &Cd, id: u64, form: u8) -> Vec<u8> {
     match codec {
+        Cd::Json if form == 1 => format!(r#"{{"Cancel":[{TRACE_ARR},{id}]}}"#).into_bytes(),
+        Cd::Json if form == 2 => format!(r#"{{"Cancel":[{TRACE_JSON},{id}]}}"#).into_bytes(),
         Cd::Json => format!(r#"{{"Cancel":{{"trace_context":{TRACE_JSON},"request_id":{id}}}}}"#).into_bytes(),
         Cd::Bincode => {
             let mut o = vec![1u8, 7];
@@ -298,7 +331,19 @@ pub fn cancel_payload(codec: &Cd, id: u64) -> Vec<u8> {
     }
 }
 pub fn response_payload(codec: &Cd, id: u64, ok: bool) -> Vec<u8> {
+    response_payload_form(codec, id, ok, 0)
+}
+pub fn response_payload_form(codec: &Cd, id: u64, ok: bool, form: u8) -> Vec<u8> {
     match codec {
+        Cd::Json if form >= 1 => {
+            if ok {
+                format!(r#"[{id},{{"Ok":"r"}}]"#).into_bytes()
+            } else if form == 1 {
+                format!(r#"[{id},{{"Err":[10,"busy"]}}]"#).into_bytes()
+            } else {
+                format!(r#"[{id},{{"Err":{{"kind":10,"detail":"busy"}}}}]"#).into_bytes()
+            }
+        }
         Cd::Json => {
             if ok {
                 format!(r#"{{"request_id":{id},"message":{{"Ok":"r"}}}}"#).into_bytes()
@@ -413,17 +458,17 @@ macro_rules! server_run {
                     if dl.is_none() && s.codec == Cd::Bincode {
                         fed = false;
                     } else {
-                        pipe.push_frame(&request_payload(&s.codec, *id, *dl, if *hang { "hang" } else { "echo" }));
+                        pipe.push_frame(&request_payload_form(&s.codec, *id, *dl, if *hang { "hang" } else { "echo" }, s.form));
                     }
                 }
                 Tok::Flood { id, n } => {
                     for _ in 0..(*n).min(2000) {
-                        pipe.push_frame(&request_payload(&s.codec, *id, Some((3600, 0)), "hang"));
+                        pipe.push_frame(&request_payload_form(&s.codec, *id, Some((3600, 0)), "hang", s.form));
                     }
                     tags.push("duplicate-flood".into());
                 }
-                Tok::Cancel(id) => pipe.push_frame(&cancel_payload(&s.codec, *id)),
-                Tok::Probe(id) => pipe.push_frame(&request_payload(&s.codec, *id, Some((10, 0)), "echo")),
+                Tok::Cancel(id) => pipe.push_frame(&cancel_payload_form(&s.codec, *id, s.form)),
+                Tok::Probe(id) => pipe.push_frame(&request_payload_form(&s.codec, *id, Some((10, 0)), "echo", s.form)),
                 _ => fed = false,
             }
             if fed {
@@ -585,7 +630,7 @@ macro_rules! client_run {
                         }
                     }
                 }
-                Tok::Resp { id, ok } => pipe.push_frame(&response_payload(&s.codec, *id, *ok)),
+                Tok::Resp { id, ok } => pipe.push_frame(&response_payload_form(&s.codec, *id, *ok, s.form)),
                 _ => act = false,
             }
             if act && !over {
@@ -937,6 +982,9 @@ pub fn to_case(s: &Script, wrong_variant_on: bool) -> Case {
         }
     }
     tags.push(match s.sub { Sub::None => "sub-none".into(), Sub::Fmt => "sub-fmt".into(), Sub::Otel => "sub-otel".into() });
+    if s.form > 0 && s.codec == Cd::Json {
+        tags.push("array-form".into());
+    }
     tags.push(match s.mode { Mode::Server => "server".into(), Mode::Client => "client".into(), Mode::Stream => "stream".into() });
     tags.sort();
     tags.dedup();
@@ -1059,17 +1107,30 @@ pub fn gen(rng: &mut Rng, wrong_variant_on: bool) -> Script {
             toks.push(Tok::Eof);
         }
     }
-    Script { mode, sub, codec, rd, cut, toks }
+    // half of the JSON server / client scripts write every struct in its ARRAY form (or mixed)
+    let form = if codec == Cd::Json && mode != Mode::Stream && rng.chance(1, 2) { rng.range(1, 2) as u8 } else { 0 };
+    Script { mode, sub, codec, rd, cut, form, toks }
 }
 
-pub fn sweep(mut f: impl FnMut(Script)) {
+pub fn sweep(mut f0: impl FnMut(Script)) {
+    // every JSON server / client script of the sweep also in the array form and in the mixed form
+    let mut f = |s: Script| {
+        if s.codec == Cd::Json && s.mode != Mode::Stream {
+            for form in [1u8, 2] {
+                let mut a = s.clone();
+                a.form = form;
+                f0(a);
+            }
+        }
+        f0(s)
+    };
     // every quiet age x every far deadline, server and client, then a probe
     for codec in [Cd::Json, Cd::Bincode] {
         for &a in &AGES {
             for &d in &FAR {
-                f(Script { mode: Mode::Server, sub: Sub::None, codec: codec.clone(), rd: vec![], cut: 0,
+                f(Script { mode: Mode::Server, sub: Sub::None, codec: codec.clone(), rd: vec![], cut: 0, form: 0,
                            toks: vec![Tok::Age(a), Tok::Req { id: 1, dl: Some((d, 0)), hang: true }, Tok::Req { id: 2, dl: Some((d, 1)), hang: false }, Tok::Probe(9)] });
-                f(Script { mode: Mode::Client, sub: Sub::None, codec: codec.clone(), rd: vec![], cut: 0,
+                f(Script { mode: Mode::Client, sub: Sub::None, codec: codec.clone(), rd: vec![], cut: 0, form: 0,
                            toks: vec![Tok::Age(a), Tok::Call { neg: false, secs: d, nanos: 0 }, Tok::Call { neg: false, secs: 10, nanos: 0 }] });
             }
         }
@@ -1079,11 +1140,11 @@ pub fn sweep(mut f: impl FnMut(Script)) {
         for codec in [Cd::Json, Cd::Bincode] {
             for &s in &SECS {
                 for &n in &NANOS {
-                    f(Script { mode: Mode::Server, sub: sub.clone(), codec: codec.clone(), rd: vec![], cut: 0,
+                    f(Script { mode: Mode::Server, sub: sub.clone(), codec: codec.clone(), rd: vec![], cut: 0, form: 0,
                                toks: vec![Tok::Req { id: 1, dl: Some((s, n)), hang: false }, Tok::Req { id: 2, dl: Some((s, n)), hang: true }, Tok::Probe(9)] });
                 }
                 for neg in [false, true] {
-                    f(Script { mode: Mode::Client, sub: sub.clone(), codec: codec.clone(), rd: vec![], cut: 0,
+                    f(Script { mode: Mode::Client, sub: sub.clone(), codec: codec.clone(), rd: vec![], cut: 0, form: 0,
                                toks: vec![Tok::Call { neg, secs: s, nanos: 1 }, Tok::Resp { id: 5, ok: true }, Tok::Call { neg: false, secs: 10, nanos: 0 }, Tok::Resp { id: 1, ok: false }] });
                 }
             }
@@ -1092,7 +1153,7 @@ pub fn sweep(mut f: impl FnMut(Script)) {
     // every cut position of a two-frame stream
     for codec in [Cd::Json, Cd::Bincode] {
         for cut in 1..40 {
-            f(Script { mode: Mode::Stream, sub: Sub::None, codec: codec.clone(), rd: vec![2, 0, 3], cut,
+            f(Script { mode: Mode::Stream, sub: Sub::None, codec: codec.clone(), rd: vec![2, 0, 3], cut, form: 0,
                        toks: vec![Tok::Frame(cancel_payload(&codec, 1)), Tok::Frame(request_payload(&codec, 300, Some((10, 0)), "echo")), Tok::Eof] });
         }
     }
